@@ -168,6 +168,9 @@ def call(ex, st, fn, args, kw, node):
         yield st, args[0]; return
     if name in ("list", "sorted") and isinstance(args[0], (list, tuple)) and not any(isinstance(x, (Sym, Ref)) for x in args[0]):
         yield st, (sorted(args[0]) if name == "sorted" else list(args[0])); return
+    if name in ("set", "frozenset"):
+        if not args: yield st, []; return                      # empty set, modelled as a list (add / membership only)
+        if isinstance(args[0], (list, tuple, set, frozenset)) and all(isinstance(x, (str, int)) for x in args[0]): yield st, set(args[0]); return
     if name == "tuple":
         v = args[0]
         if isinstance(v, (list, tuple)): yield st, tuple(v); return
@@ -272,7 +275,7 @@ def method(ex, st, recv, name, args, kw, node=None):
         new = UFL(recv.elem_ty, (lambda i, r=recv, item=item, n0=n0: z3.If(i >= n0, item, r.at(i))), n0 + z3.If(cnt > 0, cnt, 0))
         for s2, _ in ex.assign(st, tgt, new): yield s2, None
         return
-    if isinstance(recv, UFL) and name == "append":
+    if isinstance(recv, UFL) and name in ("append", "add"):      # a Python set modelled as a list: add == append (membership and add only)
         tgt = node.func.value; item = lift_to(recv.elem_ty, args[0] if recv.elem_ty.kind in ("tuple", "opt") else unopt(args[0])); n0 = recv.length
         new = UFL(recv.elem_ty, (lambda i, r=recv, item=item, n0=n0: z3.If(i == n0, item, r.at(i))), n0 + 1)
         for s2, _ in ex.assign(st, tgt, new): yield s2, None
@@ -284,7 +287,7 @@ def method(ex, st, recv, name, args, kw, node=None):
         for s2, _ in ex.assign(st, tgt, new): yield s2, None
         return
     if isinstance(recv, list):
-        if name == "append": recv.append(args[0]); yield st, None; return
+        if name in ("append", "add"): recv.append(args[0]); yield st, None; return
     raise Unsupported("method %s on %r" % (name, recv))
 
 def setitem(ex, st, base, idx, v):
